@@ -807,6 +807,7 @@ static int ex_split_depth = 2;
 static const sc_scenario_t *ex_sc = NULL;
 static uint64_t ex_execs = 0, ex_owned = 0, ex_points = 0, ex_steps = 0, ex_maxpoints = 0, ex_fail_execs = 0;
 static uint64_t ex_hist_p[16];
+static uint64_t ex_retried_timeouts = 0;
 static double ex_deadline = 0;
 static int ex_cut = 0;
 static uint64_t ex_max_execs = 0;
@@ -863,6 +864,8 @@ child_run(const uint8_t *prefix, uint32_t plen, int verbose) {
 	sc_sh->verbose = verbose;
 }
 
+static double ex_time_limit = 10.0;
+
 static void
 exec_one(const uint8_t *prefix, uint32_t plen, int verbose) {
 	pid_t pid;
@@ -898,7 +901,7 @@ exec_one(const uint8_t *prefix, uint32_t plen, int verbose) {
 	}
 	sigemptyset(&ss);
 	sigaddset(&ss, SIGCHLD);
-	t_end = now_s() + (verbose ? 60.0 : 10.0);
+	t_end = now_s() + (verbose ? 120.0 : ex_time_limit);
 	for (;;) {
 		pid_t w = waitpid(pid, &status, WNOHANG);
 		if (w == pid)
@@ -1002,6 +1005,14 @@ explore(const uint8_t *prefix, uint32_t plen, int cost_p, int cost_f, int depth,
 		return;
 	}
 	exec_one(prefix, plen, 0);
+	if (SC_V_TIMEOUT == sc_sh->verdict) {
+		/* A wall-clock limit says nothing on a loaded machine: run the same schedule again,
+		 * alone in this process, with a far longer limit before believing it. */
+		ex_time_limit = 120.0;
+		exec_one(prefix, plen, 0);
+		ex_time_limit = 10.0;
+		ex_retried_timeouts ++;
+	}
 	ex_execs ++;
 	np = sc_sh->npoints;
 	if (SC_V_DIVERGED == sc_sh->verdict) {
@@ -1172,6 +1183,8 @@ sc_main(int argc, char **argv) {
 		if (ex_hist_p[k])
 			printf("STAT\t%s\texecs_with_%d_deviations\t%llu\n", ex_sc->name, k, (unsigned long long)ex_hist_p[k]);
 	}
+	if (ex_retried_timeouts)
+		printf("NOTE\tretried\t%s: %llu execution(s) hit the 10 s wall-clock limit and were re-run with a 120 s limit\n", ex_sc->name, (unsigned long long)ex_retried_timeouts);
 	if (ex_cut)
 		printf("NOTE\tcut\t%s shard %d stopped at deadline/max-execs after %llu executions\n", ex_sc->name, ex_shard, (unsigned long long)ex_execs);
 	for (k = 0; k < ex_nviols; k ++) {
